@@ -312,3 +312,66 @@ func VerifRecursiveImport() {
 	}
 	verifrt.Reach("end")
 }
+
+// cumulativeSizeOf walks the stored DAG under lnk (dag-pb links only) and returns the
+// tree sum of its block lengths, asserting on the way that every link carries the
+// cumulative size of its target.
+func cumulativeSizeOf(st *verifmodel.Store, ls *ipld.LinkSystem, lnk datamodel.Link) uint64 {
+	blk, ok := st.Get(lnk.Binary())
+	verifrt.Assert(ok, "size:block-stored")
+	total := uint64(len(blk))
+	if protoFor(lnk) != dagpb.Type.PBNode {
+		return total
+	}
+	nd, err := ls.Load(ipld.LinkContext{}, lnk, dagpb.Type.PBNode)
+	verifrt.Assert(err == nil, "size:block-decodes")
+	links := nd.(dagpb.PBNode).FieldLinks()
+	for i := int64(0); i < links.Length(); i++ {
+		l := links.Lookup(i)
+		child := cumulativeSizeOf(st, ls, l.FieldHash().Link())
+		verifrt.Assert(l.FieldTsize().Exists() && uint64(l.FieldTsize().Must().Int()) == child, "size:tsize=cumulative")
+		total += child
+	}
+	return total
+}
+
+// VerifRecursiveImportSizes (C11): the recursive importer over a tree with a small file,
+// a symlink, a nested directory and (big=1) a file of more than one default-sized chunk
+// returns the cumulative size of the DAG and writes it on every link.
+func VerifRecursiveImportSizes() {
+	small := verifrt.Bytes(2)
+	root := &fsNode{name: "r", mode: fs.ModeDir | 0o755, children: []*fsNode{
+		{name: "a", mode: 0o644, content: small},
+		{name: "d", mode: fs.ModeDir | 0o755, children: []*fsNode{{name: "x", mode: 0o644, content: []byte{9}}}},
+		{name: "l", mode: fs.ModeSymlink | 0o777, target: "a"},
+	}}
+	if verifrt.Param("big", 0) == 1 {
+		// 256 KiB + 1 byte: two chunks under the default chunker, hence an interior node
+		big := make([]byte, 262144+1)
+		for i := range big {
+			big[i] = byte(i*7 + i>>8 + i>>16)
+		}
+		root.children = append(root.children, &fsNode{name: "z", mode: 0o644, content: big})
+		verifrt.Reach("multi-chunk-file")
+	}
+	st := verifmodel.NewStore()
+	ls := st.LinkSystem()
+	var lnk datamodel.Link
+	var size uint64
+	var err error
+	if verifrt.Native() {
+		dir, _ := os.MkdirTemp("", "verifc11")
+		defer os.RemoveAll(dir)
+		p := filepath.Join(dir, "r")
+		materialise(root, p)
+		lnk, size, err = builder.BuildUnixFSRecursive(p, ls)
+	} else {
+		m := &modelFS{root: root, byPath: map[string]*fsNode{}, files: map[*os.File]*bytes.Reader{}, dirs: map[*os.File]*[]fs.DirEntry{}, opens: map[string]int{}, readdir: map[string]int{}}
+		m.index(root, "/t/r")
+		m.install()
+		lnk, size, err = builder.BuildUnixFSRecursive("/t/r", ls)
+	}
+	verifrt.Assert(err == nil && lnk != nil, "import:ok")
+	verifrt.Assert(size == cumulativeSizeOf(st, ls, lnk), "size:returned=cumulative")
+	verifrt.Reach("end")
+}
